@@ -6,9 +6,11 @@ CONSTANTS
     Bodies = {1, 2}
     KeySeq <- KeySeqGen
     ZeroSerials = {"z0"}
-    Impl = "intended"
+    Impl = "asfound"
+    ZeroSerialPanics = FALSE
     MaxOps = 0
     PageSizes = {0, 1, 2}
+    PageModes = {"key", "total", "offset"}
     WithQueries = TRUE
 INVARIANTS T_Unique T_ListingsTotal T_ListingComplete
 PROPERTIES T_Steps
